@@ -189,7 +189,7 @@ def gen_params(r):
     for k in ["H", "T", "TS", "O", "TD", "TDO", "F", "TDF", "CRF", "LF", "PD", "PDG", "OPD", "sv"]:
         if r.random() < 0.5:
             opts = [2, 3, 4]
-            if k in ("TD", "TDF"):
+            if k in ("TD", "TDO", "TDF"):
                 opts = [d for d in (2, 4) if p["step"] % d == 0]
             if opts:
                 p["refine"][k] = r.choice(opts)
@@ -610,7 +610,7 @@ def gen_history(r, k):
 
     def nref_for(kind):
         opts = [0, 0, 1, 2, 3, 4]
-        if kind in ("TD", "TDF"):
+        if kind in ("TD", "TDO", "TDF"):
             opts = [0, 0, 1] + [d for d in (2, 4) if p["step"] % d == 0]
         return r.choice(opts)
 
